@@ -160,13 +160,14 @@ func (c *Collection) Update(id string, msg proto.Message, opts ...WriteOption) (
 				changeType = types.ChangeType_UPDATE
 				oldValue = old.body
 			}
-			c.byId[id] = &item{body: msg, changeTime: writeRequest.updateTime(c.clock)}
+			changeTime := writeRequest.updateTime(c.clock) // read once: the stored item and its event carry the same time
+			c.byId[id] = &item{body: msg, changeTime: changeTime}
 			// publish while the write lock is still held, like Delete does: events then reach subscribers in
 			// the order the changes were committed, and a Pull can't open between a commit and its event
 			// (it would get the change twice: in its initial values and as an event).
 			c.bus.Send(context.TODO(), &CollectionChange{
 				Id:         id,
-				ChangeTime: writeRequest.updateTime(c.clock),
+				ChangeTime: changeTime,
 				ChangeType: changeType,
 				OldValue:   oldValue,
 				NewValue:   msg,
